@@ -13,6 +13,12 @@ a fresh but equal object per occurrence (File(p) built again), or the plain path
 that pydra's coercion turns into its own object.  For the property they all are "the same file
 appearing several times".
 
+Multi-path file-sets (`["set", members]` leaves = SetOf[File] over 2-3 files that may live in
+different directories) make the collation setting observable: every member path has to satisfy
+the demands of the copy mode below, and for collation siblings/adjacent the paths of one
+file-set must be handed over in ONE directory (adjacent: relocated paths share a name stem) -
+also when the mode (`any`) alone would have allowed leaving the scattered originals in place.
+
 Oracle, applied to the staged value next to the files on disk
   * shape, container types, keys and plain leaves unchanged; File stays File, Directory Directory
   * one source -> exactly one staged path (however often the object occurs), different sources ->
@@ -47,14 +53,33 @@ RULE = (
     "over list/tuple/dict with File/Directory leaves from a small pool of sources with colliding "
     "basenames, repeated objects and plain leaves; representation of each file occurrence drawn from "
     "{the shared object, a fresh equal File/Directory object, the path as str, as pathlib.Path}; "
-    "hard links possible | simulated other mount). "
-    "Non-trivial = the mode does not allow leaving files in place and the value holds >= 2 file "
-    "occurrences; distinct = whole case."
+    "hard links possible | simulated other mount; copy_mode/copy_collation written as the name | "
+    "the enum member | left out where it is the default `any`). A second run (a fifth of the budget, levels "
+    "job|two|body) draws the leaves also from 1-2 multi-path file-sets SetOf[File] of 2-3 member "
+    "files (member names: unique "
+    "names+extensions | shared stem | equal extensions | equal basenames | multi-dot/no extension; "
+    "member directories: all different | partly | one directory), occurring as the shared object or "
+    "as a fresh equal one, with collation any|siblings|adjacent and the leave-allowing modes "
+    "any/leave drawn as often as the relocating ones. "
+    "Non-trivial = (the mode does not allow leaving files in place and the value holds >= 2 file "
+    "paths) or a file-set spread over directories has to be collated; distinct = whole case."
 )
 ASSUMPTIONS = [
     "field types are derived from the value (narrowest annotation); values that pydra's type "
     "coercion rejects or changes are discarded and counted (coercion is C20/C21's subject)",
-    "single-path file-sets only, so the collation setting must have no effect",
+    "File/Directory leaves are single-path file-sets: there the collation setting must have no "
+    "effect. Multi-path file-sets are fileformats.generic.SetOf[File] only (no formats with side-car "
+    "files). What the collation demands is taken from the docstrings of fileformats' "
+    "FileSet.CopyCollation / FileSet.copy: siblings|adjacent - the paths of one file-set handed to "
+    "the job lie in ONE directory (files are only left in place where that already holds); adjacent "
+    "- relocated paths share one name stem and differ in the extension only (first-dot or last-dot "
+    "extension, both accepted; paths left in place in one directory under different stems are "
+    "counted as undefined); any - no demand on the relative placement. A refusal "
+    "(UnsatisfiableCopyModeError) is accepted where those docstrings state a precondition: equal "
+    "member names (siblings, adjacent), equal member extensions (adjacent), spread paths with a "
+    "mode that only allows leaving them; staged names are not compared with the source names",
+    "which staged path belongs to which member of a file-set is decided by content (member "
+    "contents are pairwise different)",
     "'a file object appearing several times' is read with fileformats' value semantics (FileSet "
     "equality = type + paths): equal File objects and path strings/Paths naming the same source "
     "inside one field are occurrences of the same file object",
@@ -85,6 +110,12 @@ def build_value(spec, srcroot, objects, nonce, occ=(0,), counter=None):
         if how == "equal":
             return type(obj)(G.source_path(srcroot, spec))
         return str(G.source_path(srcroot, spec)) if how == "str" else Path(G.source_path(srcroot, spec))
+    if t == "set":
+        # a multi-path file-set occurrence: the shared SetOf[File] object | a fresh equal one
+        obj = G.build(spec, srcroot, objects, nonce)
+        how = OCC[occ[counter[0] % len(occ)] % len(OCC)]
+        counter[0] += 1
+        return obj if how == "shared" else type(obj)(sorted(obj.fspaths))
     if t == "list":
         return [build_value(x, srcroot, objects, nonce, occ, counter) for x in spec[1]]
     if t == "tuple":
@@ -98,6 +129,27 @@ def mode_value(name):
     from fileformats.generic import File
 
     return File.CopyMode[name].value
+
+
+GIVEN = ["str", "enum", "default"]
+
+
+def staging_kwargs(case):
+    """copy_mode / copy_collation arguments of the field as the case writes them down (`given`):
+    the name as str | the enum member | left out where the value is the default (`any`; otherwise
+    the enum member)"""
+    from fileformats.generic import File
+
+    how = case.get("given", "str")
+    mode, coll = case["mode"], case.get("collation", "any")
+    if how == "str":
+        return dict(copy_mode=mode, copy_collation=coll)
+    kw = {}
+    if not (how == "default" and mode == "any"):
+        kw["copy_mode"] = File.CopyMode[mode]
+    if not (how == "default" and coll == "any"):
+        kw["copy_collation"] = File.CopyCollation[coll]
+    return kw
 
 
 def describe_body(x):
@@ -133,7 +185,58 @@ def physical(staged: Path, source: Path, kind: str):
     return "hardlink" if (a.st_ino, a.st_dev) == (b.st_ino, b.st_dev) else "copy"
 
 
-def judge(case, specs, descs, jobdir, srcroot, nonce, check_extras=True):
+def judge_set(case, leaf, paths, srcroot, nonce, where, recs, notes):
+    """One staged multi-path file-set (SetOf[File]): which staged path holds which member is
+    decided by the (pairwise different) member contents; then the collation demands.
+    -> [(set key, member leaf, staged path)] for the path-by-path checks of the copy mode."""
+    members = leaf[1]
+    coll = case.get("collation", "any")
+    sk = G.source_key(leaf)
+    if len(paths) != len(members) or len(set(paths)) != len(paths):
+        recs.append(dict(signature="staged-fileset-paths-changed", observed=paths,
+                         expected=f"{len(members)} different paths", detail=where))
+        return []
+    by_content = {G.source_content(m, nonce): m for m in members}
+    assigned, used = [], set()
+    for p in paths:
+        try:
+            m = by_content.get(Path(p).read_text())
+        except OSError as e:
+            recs.append(dict(signature="staged-file-unreadable", observed=short(e),
+                             expected="readable", detail=dict(where, staged=p)))
+            return []
+        if m is None or G.source_key(m) in used:
+            recs.append(dict(signature="staged-content-differs:file-set-member", observed=p,
+                             expected="each member's content at exactly one staged path",
+                             detail=where))
+            return []
+        used.add(G.source_key(m))
+        assigned.append((sk, m, p))
+    if len(members) < 2:
+        return assigned
+    # collation (fileformats, FileSet.CopyCollation / FileSet.copy): `siblings` - the paths handed
+    # over are siblings (files may only be left where they are if that satisfies the collation);
+    # `adjacent` - relocated paths additionally share one name stem and differ in the extension
+    # only; `any` - no demand
+    if coll in ("siblings", "adjacent"):
+        if len({str(Path(p).parent) for p in paths}) > 1:
+            recs.append(dict(signature=f"fileset-paths-not-collated:{coll}:not-siblings",
+                             observed=paths, expected="all paths of the file-set in one directory",
+                             detail=where))
+        elif coll == "adjacent":
+            moved = [p for _, m, p in assigned if Path(p) != G.source_path(srcroot, m)]
+            if moved and not R.share_a_stem([Path(p).name for p in moved]):
+                recs.append(dict(signature="fileset-paths-not-collated:adjacent:different-stems",
+                                 observed=moved, expected="one name stem, different extensions",
+                                 detail=where))
+            elif not moved and not R.share_a_stem([Path(p).name for p in paths]):
+                # left in place in one directory under different stems: CopyCollation.adjacent
+                # only speaks about "copied paths"
+                notes.add("undefined_by_statement:adjacent_left_in_place_with_different_stems")
+    return assigned
+
+
+def judge(case, specs, descs, jobdir, srcroot, nonce, check_extras=True, notes=None):
     """violation records for the staged value(s) `descs` of the fields with value specs `specs`"""
     recs = []
     mode = case["mode"]
@@ -144,6 +247,8 @@ def judge(case, specs, descs, jobdir, srcroot, nonce, check_extras=True):
     staged_top = set()
     all_staged: dict[str, set] = {}
     probes: dict = {}
+    set_members: list = []
+    notes = set() if notes is None else notes
     for fi, (spec, desc) in enumerate(zip(specs, descs)):
         problems, pairs = G.match(spec, desc)
         for kind, pos, detail in problems:
@@ -152,12 +257,18 @@ def judge(case, specs, descs, jobdir, srcroot, nonce, check_extras=True):
                              detail=dict(field=fi, position=list(pos))))
         by_source: dict[str, set] = {}
         leaf_of = {}
+        by_set: dict[str, set] = {}
         for pos, leaf, cls, paths in pairs:
-            want = "File" if leaf[0] == "file" else "Directory"
+            want = {"file": "File", "dir": "Directory", "set": G.SETOF_FILE_NAME}[leaf[0]]
             where = dict(field=fi, position=list(pos), source=G.source_key(leaf))
             if cls != want:
                 recs.append(dict(signature="staged-file-class-changed", observed=cls, expected=want,
                                  detail=where))
+                continue
+            if leaf[0] == "set":
+                if tuple(paths) not in by_set.setdefault(G.source_key(leaf), set()):
+                    by_set[G.source_key(leaf)].add(tuple(paths))
+                    set_members += judge_set(case, leaf, paths, srcroot, nonce, where, recs, notes)
                 continue
             if len(paths) != 1:
                 recs.append(dict(signature="staged-fileset-paths-changed", observed=paths,
@@ -169,6 +280,11 @@ def judge(case, specs, descs, jobdir, srcroot, nonce, check_extras=True):
             if len(ps) > 1:
                 recs.append(dict(signature="one-object-staged-at-several-paths", observed=sorted(ps),
                                  expected="one staged path per file object", detail=k))
+        for k, pss in sorted(by_set.items()):
+            if len(pss) > 1:
+                recs.append(dict(signature="one-object-staged-at-several-paths:file-set",
+                                 observed=sorted(map(list, pss)),
+                                 expected="one staged set of paths per file-set object", detail=k))
         inv: dict[str, set] = {}
         for k, ps in by_source.items():
             for p in ps:
@@ -178,13 +294,19 @@ def judge(case, specs, descs, jobdir, srcroot, nonce, check_extras=True):
             if len(ks) > 1:
                 recs.append(dict(signature="distinct-sources-share-staged-path", observed=p,
                                  expected="one staged path per source", detail=sorted(ks)))
-        for k, ps in sorted(by_source.items()):
-            leaf = leaf_of[k]
+        todo = [(k, leaf_of[k], Path(sorted(ps)[0]), None) for k, ps in sorted(by_source.items())]
+        # the members of the multi-path file-sets: the same demands path by path (a source that
+        # is a member of two different file-set objects is legitimately staged once per object)
+        todo += [(G.source_key(m), m, Path(sp), sk) for sk, m, sp in set_members]
+        set_members = []
+        for k, leaf, staged, of_set in todo:
             src = G.source_path(srcroot, leaf)
-            staged = Path(sorted(ps)[0])
             cl = physical(staged, src, leaf[0])
             classes.append(cl)
             where = dict(field=fi, source=k, staged=str(staged), physical=cl)
+            if of_set:
+                where["member_of"] = of_set
+                all_staged.setdefault(str(staged), set()).add(k)
             if cl in ("missing", "symlink-elsewhere"):
                 recs.append(dict(signature=f"staged-path-{cl}", observed=str(staged),
                                  expected="an existing staged file", detail=where))
@@ -290,7 +412,10 @@ def replay(case):
         names = ["x", "y"][: len(specs)]
         cap: dict = {}
         allowed = mode_value(mode) & (~BITS["hardlink"] if case.get("mount") == "other" else 15)
-        has_files = any(R.file_leaves(s) for s in specs)
+        has_files = any(R.file_leaves(s) or R.set_leaves(s) for s in specs)
+        # a refusal that fileformats documents for the collation of one of the file-sets
+        unsat = sorted({r for s in specs for _, leaf in R.set_leaves(s)
+                        for r in [R.collation_unsatisfiable(leaf, coll, allowed)] if r})
 
         def hook(job, *a, **k):
             cap["dir"] = job.cache_dir
@@ -300,13 +425,12 @@ def replay(case):
             if level == "shell":
                 Tk = shell.define("ls", inputs={
                     "flags": shell.arg(type=str, argstr="", position=1, default="-1dU"),
-                    "x": shell.arg(type=list[File], argstr="", position=2, copy_mode=mode,
-                                   copy_collation=coll)})
+                    "x": shell.arg(type=list[File], argstr="", position=2, **staging_kwargs(case))})
             else:
                 fn = describe_body if len(specs) == 1 else describe_body2
                 Tk = python.define(
                     fn,
-                    inputs={n: python.arg(type=G.type_of(s), copy_mode=mode, copy_collation=coll)
+                    inputs={n: python.arg(type=G.type_of(s), **staging_kwargs(case))
                             for n, s in zip(names, specs)},
                     outputs={"out": python.out(type=ty.Any)})
             task = Tk(**dict(zip(names, values)))
@@ -331,6 +455,9 @@ def replay(case):
             if not allowed and has_files:
                 info["labels"].add("rejected_unsatisfiable_mode_on_other_mount")
                 return [], info
+            if unsat:
+                info["labels"].add("rejected_unsatisfiable_collation:" + unsat[0])
+                return [], info
             return [dict(signature=exception_signature(e, "staging-raises"), observed=short(e),
                          expected="staged inputs")], info
         except Exception as e:  # noqa
@@ -341,6 +468,9 @@ def replay(case):
             for ex in (e, inner):
                 if isinstance(ex, UnsatisfiableCopyModeError) and not allowed and has_files:
                     info["labels"].add("rejected_unsatisfiable_mode_on_other_mount")
+                    return [], info
+                if isinstance(ex, UnsatisfiableCopyModeError) and unsat:
+                    info["labels"].add("rejected_unsatisfiable_collation:" + unsat[0])
                     return [], info
             msg = f"{e} {inner}"
             m = re.search(r"Destination path '([^']*)' exists", msg)
@@ -371,7 +501,8 @@ def replay(case):
         else:
             lines = [ln for ln in out.stdout.split("\n") if ln]
             descs = [["list", [["fs", "File", [ln]] for ln in lines]]]
-        recs = judge(case, specs, descs, jobdir, srcroot, nonce, check_extras=(level != "shell"))
+        recs = judge(case, specs, descs, jobdir, srcroot, nonce, check_extras=(level != "shell"),
+                     notes=info["labels"])
         return recs, info
     finally:
         if patched is not None:
@@ -394,6 +525,11 @@ def classify(case):
         by_name.setdefault(x[2], set()).add(G.source_key(x))
     labels = [f"level_{case['level']}", f"mode_{case['mode']}", f"collation_{case.get('collation', 'any')}",
               f"mount_{case.get('mount', 'same')}", f"depth_{max(R.depth(s) for s in case['values'])}"]
+    given = case.get("given", "str")
+    if given == "default":
+        given = {0: "enum", 1: "one_left_to_default", 2: "both_left_to_default"}[
+            (case["mode"] == "any") + (case.get("collation", "any") == "any")]
+    labels.append(f"mode_and_collation_given_as_{given}")
     if any(len(v) > 1 for v in by_name.values()):
         labels.append("basename_clash_between_sources")
     if len(keys) != len(set(keys)):
@@ -411,15 +547,44 @@ def classify(case):
         labels.append("has_directory")
     if not leaves:
         labels.append("no_files")
-    if any(leaf[0] not in ("file", "dir") for s in case["values"] for _, leaf in R.leaves(s)):
+    if any(leaf[0] not in ("file", "dir", "set") for s in case["values"] for _, leaf in R.leaves(s)):
         labels.append("has_plain_leaves")
     must_stage = not (mode_value(case["mode"]) & BITS["leave"])
-    return must_stage and len(leaves) >= 2, labels
+    # multi-path file-sets: where the collation setting means something
+    sets = [leaf for s in case["values"] for _, leaf in R.set_leaves(s)]
+    multi = [x for x in sets if len(x[1]) >= 2]
+    coll = case.get("collation", "any")
+    must_collate = False
+    if sets:
+        labels.append("has_fileset")
+        if len(multi) < len(sets):
+            labels.append("fileset_single_path")
+        skeys = [G.source_key(x) for x in sets]
+        if len(skeys) != len(set(skeys)):
+            labels.append("fileset_repeated")
+    if multi:
+        labels.append(f"fileset_multi_path_collation_{coll}")
+        labels.append("fileset_spread_over_directories" if any(R.set_scattered(x) for x in multi)
+                      else "fileset_in_one_directory")
+        allowed = mode_value(case["mode"]) & (~BITS["hardlink"] if case.get("mount") == "other" else 15)
+        for x in multi:
+            if (coll != "any" and R.set_scattered(x)
+                    and not R.collation_unsatisfiable(x, coll, allowed)):
+                must_collate = True
+                # the mode alone would allow leaving the files, the collation does not
+                if allowed & BITS["leave"] and "fileset_must_be_relocated_for_collation_only" not in labels:
+                    labels.append("fileset_must_be_relocated_for_collation_only")
+        if must_collate:
+            labels.append("fileset_must_be_collated")
+    return (must_stage and len(leaves) + sum(len(x[1]) for x in sets) >= 2) or must_collate, labels
 
 
 @st.composite
-def cases(draw):
-    level = draw(st.sampled_from(["job"] * 6 + ["two"] * 2 + ["body", "shell"]))
+def cases(draw, with_sets=False):
+    """with_sets: the leaves also include multi-path file-sets (SetOf[File]); there the collation
+    is drawn non-trivial more often and the modes that allow leaving files in place (where only
+    the collation forces a relocation) are as frequent as the others together"""
+    level = draw(st.sampled_from(["job"] * 6 + ["two"] * 2 + ["body"] + ([] if with_sets else ["shell"])))
     mode = draw(st.sampled_from(["copy"] * 3 + ["link"] * 3 + ["hardlink"] * 2 + ["any"] + MODES))
     coll = draw(st.sampled_from(["any", "any", "siblings", "adjacent"]))
     mount = "same"
@@ -430,14 +595,19 @@ def cases(draw):
         n = [3, 2, 4, 1][draw(st.integers(0, 3))]
         values = [["list", [pool[draw(st.integers(0, len(pool) - 1))] for _ in range(n)]]]
     else:
-        values = draw(G.nested_values(2 if level == "two" else 1))
+        if with_sets:
+            mode = draw(st.sampled_from(["any"] * 4 + ["leave"] + MODES))
+            coll = draw(st.sampled_from(["siblings", "adjacent", "any", "siblings", "adjacent"]))
+        values = draw(G.nested_values(2 if level == "two" else 1, with_sets=with_sets))
         mount = draw(st.sampled_from(["same", "same", "same", "other"]))
     # representation of the file occurrences: half of the cases the shared objects only, else a
     # cycle of 1-4 representations
     occ = [0]
     if draw(st.integers(0, 1)) == 1:
         occ = draw(st.lists(st.sampled_from([0, 1, 1, 2, 2, 3]), min_size=1, max_size=4))
-    return dict(level=level, mode=mode, collation=coll, values=values, mount=mount, occ=occ)
+    given = draw(st.sampled_from(GIVEN))
+    return dict(level=level, mode=mode, collation=coll, values=values, mount=mount, occ=occ,
+                given=given)
 
 
 def run(sh):
@@ -451,4 +621,5 @@ def run(sh):
         sh.record_case(case, nontrivial=nt, labels=labels)
         sh.handle(case, recs, raise_unattributed=True)
 
-    sh.given(cases(), body, sh.budget(320, 8000), tag="stage")
+    sh.given(cases(), body, sh.budget(288, 7000), tag="stage")
+    sh.given(cases(with_sets=True), body, sh.budget(80, 2000), tag="sets")
